@@ -24,8 +24,8 @@ def plan(tier, seed):
         bspecs, ispecs = [(1, 2), (2, 2), (3, 2), (4, 1), (5, 1), (6, 0)], [(1, 2), (2, 2), (3, 2), (4, 1), (5, 1), (6, 0)]
     else:
         bspecs, ispecs = [(1, 3), (2, 3), (3, 2), (4, 2), (5, 1), (6, 1), (7, 0)], [(1, 3), (2, 3), (3, 2), (4, 2), (5, 2), (6, 1), (7, 0)]
-    chunks = sweep.shape_chunks([s + (False, 2) for s in bspecs], per_chunk=30, kind='binary')
-    chunks += sweep.shape_chunks([s + (True,) for s in ispecs], per_chunk=30, kind='inorder')
+    chunks = sweep.shape_chunks([s + (False, 2) for s in bspecs], per_chunk=30, big=True, kind='binary')
+    chunks += sweep.shape_chunks([s + (True,) for s in ispecs], per_chunk=30, big=True, kind='inorder')
     chunks.append({'kind': 'cli', 'n': 4})
     return {
         'chunks': chunks,
